@@ -59,6 +59,60 @@ CLAIMS = {
         "note": "Bound: value and key catalogues (23 values, 6 keys), 3-key arbitrary pre-state, all flag/config/default combinations. Trusted: VFS, simulator, recorded configure_logging.",
         "design": "DESIGN.md section 4, C20",
     },
+    "C03": {
+        "text": "Bounded symbolic model checking of path normalisation and Graph.from_targets: every (target, file) role is a symbolic selector, every target has its own working directory and "
+                "spelling of every file; dependencies, dependents (exact inverse), endpoints, provides, unresolved and dfs order must equal the relation computed by the independent "
+                "graph specification; a spelling query compares normalised equality with canonical identity over generated spellings and working directories (os.getcwd interposed); "
+                "`gwf info` output (json and pretty) is compared with the same relations.",
+        "note": "Bound: 2 targets x 3 files and 3 x 2 (quick), 3 x 3 all definition orders (thorough); 8 generated spellings x 5 working directories. normpath is C code, so spellings are a "
+                "generated catalogue selected by solver variables, not symbolic strings. No symlinks.",
+        "design": "DESIGN.md section 4, C03",
+    },
+    "C04": {
+        "text": "Bounded symbolic model checking of validation: role matrix (none/input/output/both) and existence of every file symbolic, no well-formedness assumption; accept iff no "
+                "double producer, no missing unproduced input, no cycle in the transitive closure (computed independently); a raised error's own condition must hold. Command bodies on "
+                "ill-formed workflows must fail with the right error and leave the VFS and the scheduler untouched. Depth: chain length symbolic under a scaled-down recursion budget.",
+        "note": "Bound: 3 targets x 2 files (quick) / 3 x 3 (thorough). The depth clause is a KNOWN FINDING (RecursionError beyond a few hundred targets): its query is not run while the "
+                "witness still fails; it is replayed at real scale (3000 targets).",
+        "design": "DESIGN.md section 4, C04",
+    },
+    "C08": {
+        "text": "Bounded symbolic model checking of the state mapping of all four backends through the real create_backend/TrackingBackend over simulators: the own job's code ranges over "
+                "the reference table of documented codes (24 squeue, 16 sacct, 12 bjobs, 22 qstat, 8 pool), with stale accounting rows, accounting on/off, unrelated jobs with prefix/"
+                "extension ids, another tracked job; the class demanded by the statement (or the safety rule for codes it does not name) must result; squeue beats sacct; sacct never "
+                "consulted when disabled; resubmission replaces the id across invocations; sacct batching covers every id exactly once for symbolic batch sizes.",
+        "note": "Reference tables transcribed from the manuals from memory (echoed in evidence). Restart of the local pool reusing ids is a KNOWN FINDING (excluded by precondition, witness kept).",
+        "design": "DESIGN.md section 4, C08 and appendix A",
+    },
+    "C11": {
+        "text": "Bounded symbolic model checking of the real pool coroutines (Scheduler.try_handle_task etc.) run by asyncio's pure-Python Task/Future on a deterministic loop: the "
+                "environment's event script (which live child exits with which symbolic status, which task is cancelled, when timers fire, when late tasks arrive) is symbolic; a child may "
+                "only be spawned at an instant at which every dependency is done and COMPLETED, and never after a dependency failed, timed out or was cancelled.",
+        "note": "Bound: 3-task DAGs (chain, fork, join, late submission, time-limited dependency), scripts of 3 (quick) / 4 (thorough) events + drain, 1-2 cores. Fake child processes; "
+                "grandchildren and real time outside.",
+        "design": "DESIGN.md section 4, C11-C13",
+    },
+    "C12": {
+        "text": "Same machinery as C11 with a counting proxy around the real semaphore: at every quiescent point live children <= cores, no release without acquire, no free core while a ready "
+                "task waits, balance at the end - for scenarios with failed/skipped/timed-out/cancelled tasks followed by further tasks, including a child that ignores SIGTERM.",
+        "note": "Bound: 3-4 task scenarios, scripts of 3-4 events + drain, 1-2 cores.",
+        "design": "DESIGN.md section 4, C11-C13",
+    },
+    "C13": {
+        "text": "Same machinery as C11: after the environment delivered everything every task is final, its state is the one the local-pool specification assigns to what happened (exit status "
+                "symbolic, start failure and log-write failure as symbolic masks, cancel at any quiescent await point, time limits), final states never change (also under cancel), a task is "
+                "started at most once, logs of completed tasks equal the child's output, no child is alive at the end.",
+        "note": "Bound as C11; 'none of the task's processes keeps running' is claimed for the direct child only.",
+        "design": "DESIGN.md section 4, C11-C13",
+    },
+    "C14": {
+        "text": "Bounded symbolic model checking of Server.handle_connection for two connections on the deterministic loop: client A's lines are selectors over 20 message shapes (valid, "
+                "malformed, wrong types, unknown ids, ids as strings, not JSON), followed by keeping/dropping the connection or a broken writer, interleaved with client B's task exit; B must "
+                "still be served with the pool's true states, no id twice in an answer or across accepted tasks, every accepted task final, cores balanced, later enqueues accepted and run.",
+        "note": "Bound: 2 lines of A (quick), 2-3 (thorough). JSON decoding is C code, hence a catalogue instead of arbitrary bytes. An exception in A's handler ends only that handler "
+                "(asyncio start_server contract).",
+        "design": "DESIGN.md section 4, C14",
+    },
 }
 
 PENDING = {}
